@@ -153,7 +153,11 @@ class Number(Parser):
         stream.take()
         while stream.peek().isascii() and stream.peek().isdigit():
             out += stream.take()
-        output.append(int(out))
+        try:
+            output.append(int(out))
+        except ValueError:
+            # int() refuses digit strings beyond the interpreter's limit
+            stream.error('<number>')
 
     def __str__(self):
         return '<number>'
